@@ -373,3 +373,40 @@ func VP_KF_C11_1() {
 	}
 	zzvp.Assert(n != 1, "the returned assignment makes exactly one of a..e true although the group is negated")
 }
+
+// VP_C16_bf: two independent bf.Solve calls on two goroutines under the happens-before monitor.
+func VP_C16_bf() {
+	forms := []func() Formula{
+		func() Formula { return And(Or(Var("a"), Var("b")), Not(Var("a"))) },
+		func() Formula { return Unique("a", "b", "c", "d", "e") },
+		func() Formula { return And(Xor(Var("x"), Var("y")), Eq(Var("x"), Var("y"))) },
+	}
+	k1 := zzvp.Choose("f1", len(forms))
+	k2 := zzvp.Choose("f2", len(forms))
+	use := func(k int) int {
+		m := Solve(forms[k]())
+		if m == nil {
+			return -1
+		}
+		n := 0
+		for _, name := range []string{"a", "b", "c", "d", "e", "x", "y"} {
+			if m[name] {
+				n++
+			}
+		}
+		return n
+	}
+	w1, w2 := use(k1), use(k2)
+	zzvp.RaceDetect(true)
+	zzvp.Preemptions(0)
+	zzvp.Schedule(1)
+	c1 := make(chan int, 1)
+	c2 := make(chan int, 1)
+	go func() { c1 <- use(k1) }()
+	go func() { c2 <- use(k2) }()
+	r1, r2 := <-c1, <-c2
+	zzvp.Schedule(0)
+	zzvp.RaceDetect(false)
+	zzvp.Assert(r1 == w1 && r2 == w2, "bf.Solve run concurrently with another call returned something else than when run alone")
+	zzvp.Reach("two-uses")
+}
